@@ -761,16 +761,21 @@ class Server(utils.EventEmitter):
         pdu_space_available = bearer.att_mtu - 2
         attributes = []
         response: att.ATT_PDU
-        async for attribute in (
-            attribute
-            for attribute in self.attributes
-            if attribute.handle >= request.starting_handle
-            and attribute.handle <= request.ending_handle
-            and attribute.type == request.attribute_type
-            and (await attribute.read_value(bearer)) == request.attribute_value
-            and pdu_space_available >= 4
-        ):
-            # TODO: check permissions
+        for attribute in self.attributes:
+            if not (
+                attribute.handle >= request.starting_handle
+                and attribute.handle <= request.ending_handle
+                and attribute.type == request.attribute_type
+                and pdu_space_available >= 4
+            ):
+                continue
+
+            try:
+                if (await attribute.read_value(bearer)) != request.attribute_value:
+                    continue
+            except att.ATT_Error:
+                # An attribute that this peer cannot read does not match
+                continue
 
             # Add the attribute to the list
             attributes.append(attribute)
